@@ -74,6 +74,12 @@ class Scenario:
                 self.blobs[obj.hash_info.value] = c
         env.reset_staging()
         self.fs = None
+        # a destination on the local filesystem may be opened through a legal non-normalised spelling of its path
+        self.dest_spelling = rng.choice(["canonical"] * 5 + ["dot", "double-slash", "trailing-separator"]) if self.dest_kind != "remote" else "canonical"
+        self.dest_opened = {"canonical": self.dest_root, "dot": os.path.join(d, ".", "dest"), "double-slash": d + os.sep + os.sep + "dest",
+                            "trailing-separator": self.dest_root + os.sep}[self.dest_spelling]
+        if self.dest_spelling != "canonical":
+            ctx.res.count("destinations_opened_through_non_normalised_path")
         self.dest = self._mk_dest()
 
     def _mk_dest(self, **cfg):
@@ -83,8 +89,8 @@ class Scenario:
             self.fs = FaultyFS(page_size=self.rng.choice([None, 10, 50]), jobs=4)
             return env.remote_odb(self.dest_root, fs=self.fs, **cfg)
         if self.dest_kind == "base":
-            return env.base_odb(self.dest_root, **cfg)
-        return env.local_odb(self.dest_root, **cfg)
+            return env.base_odb(self.dest_opened, **cfg)
+        return env.local_odb(self.dest_opened, **cfg)
 
     # ---- requests
     def file_oids(self):
@@ -183,6 +189,7 @@ class UploadFaults:
 
             def pred(kind, p, p2):
                 tgt = p2 if kind in ("rename", "move") else p
+                tgt = os.path.normpath(tgt) if isinstance(tgt, str) and sc.dest_spelling != "canonical" else tgt
                 if tgt is None or not tgt.startswith(root):
                     return False
                 if kind in ("open-w", "link", "rename", "move", "copyfile"):
@@ -195,6 +202,7 @@ class UploadFaults:
 
             def mon(kind, p, p2, extra):
                 tgt = p2 if kind in ("rename", "move") else p
+                tgt = os.path.normpath(tgt) if isinstance(tgt, str) and sc.dest_spelling != "canonical" else tgt
                 if tgt is not None and tgt.startswith(root):
                     self._observe()
 
